@@ -106,7 +106,7 @@ def hasKey (h : Heap) (name : String) (s : Addr) : Bool :=
   | none => false
 
 /-- `v%a` → `v` (`expr.name_parts[0]`) -/
-def baseName (name : String) : String := (name.splitOn "%").headD name
+def baseName (name : String) : String := String.ofList (name.toList.takeWhile (· ≠ '%'))
 
 /-- `Scope.get_symbol_scope` along an explicit chain (innermost first), then the `'%' in name` retry -/
 def resolve (h : Heap) (chain : List Addr) (name : String) : Option Addr :=
@@ -162,8 +162,9 @@ def thread (step : Heap → Addr → Heap × Addr) : Heap → List Addr → Heap
     let (h2, r') := thread step h1 r
     (h2, a' :: r')
 
-/-- pickle drops `ProcedureType._procedure` -/
-def copyTy (m : Mode) (ty : Ty) : Ty := if m.pickle then { ty with proc := none } else ty
+/-- pickle drops `ProcedureType._procedure`; `DerivedType.typedef` is followed by pickle and ends at a copy of the `TypeDef`
+(the model does not allocate that copy: the link is dropped, see notes/C18.md) -/
+def copyTy (m : Mode) (ty : Ty) : Ty := if m.pickle then { ty with proc := none, tdef := none } else ty
 
 def copyEnts (m : Mode) (ents : List (String × Ty)) : List (String × Ty) := ents.map fun e => (e.1, copyTy m e.2)
 
@@ -174,14 +175,14 @@ def copyNode (m : Mode) : Nat → Heap → List Addr → Addr → Heap × Addr
   | f + 1, h, chain, a =>
     match h.get a with
     | some (.node lbl none syms kids) =>
-      let (h1, kids') := thread (fun h k => copyNode m f h chain k) h kids
-      (h1.flag (unresolved m h1 chain syms)).alloc m.tag (.node lbl none (syms.map (rescope m h1 chain)) kids')
+      let r := thread (fun h k => copyNode m f h chain k) h kids
+      (r.1.flag (unresolved m r.1 chain syms)).alloc m.tag (.node lbl none (syms.map (rescope m r.1 chain)) r.2)
     | some (.node lbl (some (t, _)) syms kids) =>
-      let (h1, t') := h.alloc m.tag (.tab (chain.head?.bind (tabOf h)) (copyEnts m (entsOf h t)))
-      let (h2, a') := h1.alloc m.tag (.node lbl (some (t', chain.head?)) [] [])
-      let (h3, kids') := thread (fun h k => copyNode m f h (a' :: chain) k) h2 kids
-      (((h3.flag (unresolved m h3 (a' :: chain) syms)).set a'
-          (.node lbl (some (t', chain.head?)) (syms.map (rescope m h3 (a' :: chain))) kids')), a')
+      let r1 := h.alloc m.tag (.tab (chain.head?.bind (tabOf h)) (copyEnts m (entsOf h t)))
+      let r2 := r1.1.alloc m.tag (.node lbl (some (r1.2, chain.head?)) [] [])
+      let r3 := thread (fun h k => copyNode m f h (r2.2 :: chain) k) r2.1 kids
+      (((r3.1.flag (unresolved m r3.1 (r2.2 :: chain) syms)).set r2.2
+          (.node lbl (some (r1.2, chain.head?)) (syms.map (rescope m r3.1 (r2.2 :: chain))) r3.2)), r2.2)
     | _ => h.alloc m.tag (.node "" none [] [])
 
 /-- `parent.symbol_attrs[name] = SymbolAttributes(ProcedureType(procedure=self))` -/
@@ -192,7 +193,7 @@ def register (h : Heap) (parent : Option Addr) (name : String) (u : Addr) : Heap
     match tabOf h p with
     | some t =>
       match h.get t with
-      | some (.tab par ents) => h.set t (.tab par (aset name { code := 1, proc := some u } ents))
+      | some (.tab par ents) => h.set t (.tab par (aset name.toLower { code := 1, proc := some u } ents))
       | _ => h
     | none => h
 
@@ -206,15 +207,15 @@ def copyUnit (m : Mode) : Nat → Heap → (parent : Option Addr) → (hostIsSub
     | some (.unit isMod name _ t secs mems) =>
       -- member of an unpickled subroutine: `_parent` is not in the state and nobody resets it
       let parent' := if m.pickle && hostIsSub then none else parent
-      let (h1, t') := h.alloc m.tag (.tab (parent'.bind (tabOf h)) (copyEnts m (entsOf h t)))
-      let (h2, u') := h1.alloc m.tag (.unit isMod name parent' t' [] [])
-      let chain := u' :: chainOf (f + 1) h2 parent'
+      let r1 := h.alloc m.tag (.tab (parent'.bind (tabOf h)) (copyEnts m (entsOf h t)))
+      let r2 := r1.1.alloc m.tag (.unit isMod name parent' r1.2 [] [])
+      let chain := r2.2 :: chainOf (f + 1) r2.1 parent'
       -- contained program units first: they register themselves in the new table
-      let (h3, mems') := thread (fun h k => copyUnit m f h (some u') (!isMod) k) h2 mems
-      let (h4, secs') := thread (fun h k => copyNode m (f + 1) h chain k) h3 secs
-      let h5 := h4.set u' (.unit isMod name parent' t' secs' mems')
+      let r3 := thread (fun h k => copyUnit m f h (some r2.2) (!isMod) k) r2.1 mems
+      let r4 := thread (fun h k => copyNode m (f + 1) h chain k) r3.1 secs
+      let h5 := r4.1.set r2.2 (.unit isMod name parent' r1.2 r4.2 r3.2)
       -- register_in_parent_scope (also done by `__setstate__` of the enclosing unit for its members)
-      (register h5 (if m.pickle && hostIsSub then parent else parent') name u', u')
+      (register h5 (if m.pickle && hostIsSub then parent else parent') name r2.2, r2.2)
     | _ => h.alloc m.tag (.node "" none [] [])
 
 def cloneMode : Mode := ⟨2, false⟩
@@ -282,6 +283,11 @@ def scopedBelow : Nat → Heap → Addr → List Addr
     | some (.node _ sc _ kids) => (if sc.isSome then [a] else []) ++ kids.flatMap (scopedBelow f h)
     | _ => []
 
+def secsLen (h : Heap) (u : Addr) : Nat :=
+  match h.get u with
+  | some (.unit _ _ _ _ secs _) => secs.length
+  | _ => 0
+
 def applyOp (f : Nat) (tag : Nat) (h : Heap) (root : Addr) : Op → Heap
   | .rename path name =>
     match navigate h path root with
@@ -299,7 +305,7 @@ def applyOp (f : Nat) (tag : Nat) (h : Heap) (root : Addr) : Op → Heap
   | .setsec path k stmts dcode =>
     match navigate h path root with
     | some u =>
-      if k < (match h.get u with | some (.unit _ _ _ _ secs _) => secs.length | _ => 0) then
+      if k < secsLen h u then
         let (h1, kids) := mkStmts f tag dcode u h stmts
         let (h2, s) := h1.alloc tag (.node "Section" none [] kids)
         match h2.get u with
